@@ -16,7 +16,7 @@ from ..symx import render
 META = {
     "level": "other",
     "technique": "comparator truth tables on raw-vs-compressed decisions, symbolic comparison (E5) of probe start/step and key-derivation expressions across sibling functions, flag-vocabulary inclusion over the resolved call graph",
-    "claim": "Decides that writer and reader agree on when data is compressed, on hash-table probing, on file-key derivation (incl. the position-adjusted key) and on the block-flag vocabulary, at every site. Does not decide bit-identical content for all inputs × configurations, HET/BET bit packing, or reported sizes. Also: the bound a reader compares the stored size with is the size it decompresses to; every sector-count site computes ceil(size/sector_size) (finite grid); sibling readers add the same position operand into the adjusted key; the key is derived from the final flags. Wave 5: the size operand of the adjusted key resolves to the file's uncompressed size on every branch of every reader.",
+    "claim": "Decides that writer and reader agree on when data is compressed, on hash-table probing, on file-key derivation (incl. the position-adjusted key) and on the block-flag vocabulary, at every site. Does not decide bit-identical content for all inputs × configurations, HET/BET bit packing, or reported sizes. Also: the bound a reader compares the stored size with is the size it decompresses to; every sector-count site computes ceil(size/sector_size) (finite grid); sibling readers add the same position operand into the adjusted key; the key is derived from the final flags. Wave 5: the size operand of the adjusted key resolves to the file's uncompressed size on every branch of every reader. Wave 6: a writer that sets the sector-CRC flag reaches the checksum writer on every success path (incl. empty files); the sparse decoder appends min(run, bytes owed); the position-adjusted key takes the uncompressed size on every writer; (V3/V4) BET name hashes come from the function the BET verifier recomputes, the HET free-slot marker is one value below 0x80 on writer and reader side, and no second method byte precedes compress()'s result.",
     "note": "Trusted: compress() store-raw rule (C03), hash_string (C04). Expressions are compared after AC normalisation; integer casts are transparent.",
     "assumptions": ["sector size is always 512 << shift via header.sector_size()"],
     "explanation": "compress / read_file / read_sectored_file / read_file_by_indices / prepare_file_data decisions; HashTable::find_file, ArchiveBuilder::add_to_hash_table, MutableArchive::{find_file_entry, add_to_hash_table}; calculate_file_key vs three reader derivations; FLAG_* written vs read.",
@@ -281,6 +281,89 @@ def key_from_final_flags_rule(ctx, mpq, pid):
                     ctx.ok(R_kf, {"call_line": t["ln"], "fix_key_sets_before": len([1 for b_, _ in sets if cfg.dominates(b_, bb) or b_ == bb])})
 
 
+def het_bet_writer_matches_reader_rule(ctx, mpq, pid):
+    fns = mpq.fns
+    M = "wow_mpq::"
+    # HET/BET (V3/V4): what the builder writes must be what the reader's own HET/BET lookup accepts — the classic tables the builder
+    # also writes must not be what keeps lookups working.
+    #  (a) the name hash stored per file in BET comes from the function BetTable::verify_file_hash recomputes;
+    #  (b) the free-slot marker of the HET hash table is one value on the write and the read side, outside the range of name hashes
+    #      (0x80..=0xFF: the top bit is always set);
+    #  (c) compress() already returns the method byte in front of the data (or the data unchanged): nobody prepends a second one.
+    R_hb = ctx.rule("%s.het-bet-writer-matches-reader" % pid, "BET hashes are computed with the verifier's hash function; the HET free-slot marker is the same constant < 0x80 in builder, in-place modifier and reader; no method byte is pushed in front of compress()'s result", floor=5)
+    hashfn = lambda fn_: sorted({(c_.get("fn") or "").split("::")[-1] for c_ in hirq.calls(fn_.hir["body"]) if re.search(r"crypto::(\w+::)?(het_hash|jenkins_hash|jenkins_hashlittle2|jenkins_one_at_a_time|hash_string)$", c_.get("fn") or "")})
+    vf = fns.get(M + "tables::bet::BetTable::verify_file_hash")
+    bw = [f for f in mpq.fn_list if f.hir and f.kind != "Closure" and re.search(r"::(builder|modification)::", f.path) and any(x.get("k") == "mcall" and x["m"] == "push" and "bet_hashes" in hirq.render(x.get("recv")) for x in hirq.walk(f.hir["body"]))]
+    if vf is None or not bw:
+        ctx.bad(R_hb, "bet-hash|missing", "-", "verify_file_hash or the BET hash writer not found", "anchor gone")
+    else:
+        ctx.saw_fn(vf)
+        alias = {"het_hash": "jenkins_hashlittle2"}
+        want = {alias.get(h_, h_) for h_ in hashfn(vf)}
+        for f in bw:
+            ctx.saw_fn(f)
+            # the call whose result is pushed
+            pushed = set()
+            for x in hirq.walk(f.hir["body"]):
+                if x.get("k") == "mcall" and x["m"] == "push" and "bet_hashes" in hirq.render(x.get("recv")) and x.get("args"):
+                    for v in hirq.value_leaves(f.hir["body"], x["args"][0]):
+                        if v is not None:
+                            src = v["e"] if v.get("k") == "tupidx" else v
+                            for c_ in hirq.walk(src):
+                                if c_.get("k") == "call" and re.search(r"crypto::", c_.get("fn") or ""):
+                                    pushed.add(alias.get((c_.get("fn") or "").split("::")[-1], (c_.get("fn") or "").split("::")[-1]))
+            if pushed and pushed <= want:
+                ctx.ok(R_hb, {"bet_hash_writer": f.path.split("::")[-1], "hash": sorted(pushed)})
+            elif pushed:
+                ctx.bad(R_hb, "%s|bet-hash-function" % f.path.split("::")[-1], f.where, "BET hashes are computed with %s; BetTable::verify_file_hash recomputes them with %s" % (sorted(pushed), sorted(want)),
+                        "no file of an archive written this way resolves through HET/BET: lookups only work through the silent fallback to the classic tables, and any reader without that fallback finds nothing")
+            else:
+                ctx.ok(R_hb, {"bet_hash_writer": f.path.split("::")[-1], "note": "placeholder hashes (no name hash pushed)"})
+    markers = {}
+    for f in mpq.fn_list:
+        if not f.hir or f.kind == "Closure" or "::tests::" in f.path:
+            continue
+        for l in hirq.find(f.hir["body"], "let"):
+            if l["pat"].get("k") == "bind" and re.search(r"het_hash_table", l["pat"]["name"]) and l.get("init") is not None:
+                r_ = hirq.render(l["init"])
+                m_ = re.search(r"vec!\[(0x[0-9A-Fa-f]+|\d+)(?:u8)?; |from_elem\((0x[0-9A-Fa-f]+|\d+)", r_)
+                lit = next((hirq.lit_int(y) for y in hirq.walk(l["init"]) if y.get("k") == "lit" and "int" in y["v"]), None)
+                if lit is not None:
+                    markers[("init", f.path.split("::")[-1], l.get("ln"))] = lit
+        for n_ in hirq.find(f.hir["body"], "if"):
+            c_ = hirq.strip(n_["c"])
+            if c_.get("k") == "bin" and c_["op"] == "==" and re.search(r"het_hash_table\[|stored_hash", hirq.render(c_)) and hirq.lit_int(hirq.strip(c_["r"])) is not None:
+                if re.search(r"stored_hash|het_hash_table\[", hirq.render(c_["l"])) and not re.search(r"name_hash", hirq.render(c_["r"])):
+                    markers[("test", f.path.split("::")[-1], n_.get("ln"))] = hirq.lit_int(hirq.strip(c_["r"]))
+    vals = set(markers.values())
+    if not (any(k_[0] == "init" for k_ in markers) and any(k_[0] == "test" and k_[1].startswith("find_file") for k_ in markers) and any(k_[0] == "test" and not k_[1].startswith("find_file") for k_ in markers)):
+        ctx.bad(R_hb, "het-marker|sites", "-", "free-slot marker sites not recognised on all three sides — initial fill, writer's probe, reader's probe (%s)" % sorted(markers), "shape changed")
+    elif len(vals) == 1 and next(iter(vals)) < 0x80:
+        ctx.ok(R_hb, {"het_free_slot_marker": "0x%02X" % next(iter(vals)), "sites": len(markers)})
+    else:
+        ctx.bad(R_hb, "het-marker|values", "-", "HET free-slot marker sites use %s" % {"%s:%s" % (k_[1], k_[2]): "0x%02X" % v_ for k_, v_ in sorted(markers.items())},
+                "a marker inside 0x80..=0xFF is also a legal 8-bit name hash: the builder overwrites the slots of names hashing to it and the reader stops probing at them (about 2 names in 256 become unreachable through HET); differing markers make one side's free slots look occupied to the other")
+    for f in mpq.fn_list:
+        if not f.hir or f.kind == "Closure" or "::tests::" in f.path or "::compression::" in f.path:
+            continue
+        comp = [l["pat"]["name"] for l in hirq.find(f.hir["body"], "let") if l["pat"].get("k") == "bind" and l.get("init") is not None and any((c_.get("fn") or "").endswith("compression::compress::compress") or (c_.get("fn") or "").endswith("compression::compress") for c_ in hirq.calls(l["init"]))]
+        if not comp:
+            continue
+        ctx.saw_fn(f)
+        dbl = None
+        for x in hirq.walk(f.hir["body"]):
+            if x.get("k") == "mcall" and x["m"] in ("extend_from_slice", "extend", "append") and x.get("args") and any(re.search(r"\b%s\b" % re.escape(nm), hirq.render(x["args"][0])) for nm in comp):
+                tgt = hirq.render(x["recv"])
+                if any(y.get("k") == "mcall" and y["m"] == "push" and hirq.render(y["recv"]) == tgt and re.search(r"compression|method", hirq.render(y["args"][0]) if y.get("args") else "") for y in hirq.walk(f.hir["body"])):
+                    dbl = x
+        if dbl is not None:
+            ctx.bad(R_hb, "%s|double-method-byte" % f.path.split("::")[-1], "%s:%d" % (f.file, dbl.get("ln") or 0), "a compression method byte is pushed in front of `%s`, which compress() already returned with its method byte (or unchanged when it did not shrink)" % hirq.render(dbl["args"][0])[:40],
+                    "the reader takes the first byte as the method and the second as data: the table (or block) fails to decompress — with table compression on, HET and BET cannot be loaded")
+        else:
+            ctx.ok(R_hb, {"fn": f.path.split("::")[-1], "compress_result": "used as returned"})
+
+
+
 def run(ctx):
     prog = ctx.prog
     mpq = prog.crate("wow_mpq")
@@ -395,6 +478,7 @@ def run(ctx):
                                 "a block whose stored form is as long as the original is emitted compressed; every reader treats equal sizes as raw and returns the compressed stream as the file's content")
 
     key_from_final_flags_rule(ctx, mpq, "C01")
+    het_bet_writer_matches_reader_rule(ctx, mpq, "C01")
     crc_flag_implies_checksum_rule(ctx, mpq, "C01")
 
     # the codecs are part of the build -> open round trip: a block the sparse decoder over-fills is a file that does not read back
